@@ -363,3 +363,153 @@ def part_h(seed, tier, deadline):
     for f in fails:
         f['what'] = f['what'][:1500]
     return dict(stats=stats, fails=fails, sigs=sigs, samples=samples)
+
+
+# ====================================================================== (C2) correspondence with Model/SharedList.lean
+
+def gen_list_case(rng, size):
+    nl = rng.choice([1, 1, 2, 3])
+    shared = [[[rng.randrange(4), rng.randrange(4)] for _ in range(rng.choice([0, 1, 2, 3, 4, 5] if size != 'tiny' else [0, 1, 2, 3]))]
+              for _ in range(nl)]
+    k = 2 if size == 'tiny' else rng.choice([2, 2, 3])
+    progs = []
+    for _ in range(k):
+        prog = []
+        for _ in range(rng.randrange(1, 3 if size == 'tiny' else 4)):
+            if rng.random() < 0.55:
+                prog.append(['sortBy', rng.randrange(nl), rng.choice(['fst', 'snd', 'sum']), rng.random() < 0.6])
+            else:
+                prog.append(['read', rng.randrange(nl)])
+        progs.append(prog)
+    return dict(shared=shared, progs=progs)
+
+
+def list_bodies(case):
+    """the real objects: Python lists shared by the threads, the real queries.order_by over them with a key selector
+    whose every call is a scheduling point"""
+    import operator
+    from yaql.standard_library import queries
+    from props import c18
+    lists = [[tuple(r) for r in l] for l in case['shared']]
+    sels = {'fst': lambda r: r[0], 'snd': lambda r: r[1], 'sum': lambda r: r[0] + r[1]}
+
+    def body(prog):
+        def run():
+            outs = []
+            for op in prog:
+                if op[0] == 'sortBy':
+                    sel = sels[op[2]]
+
+                    def selector(r, sel=sel):
+                        c18._point()
+                        return sel(r)
+                    f = queries.order_by if op[3] else queries.order_by_descending
+                    it = f(lists[op[1]], selector, operator.lt, operator.gt)
+                    outs.append(['rows', [list(r) for r in it]])
+                else:
+                    outs.append(['rows', [list(r) for r in lists[op[1]]]])
+                c18._point()
+            return outs
+        return run
+    return lists, [body(p) for p in case['progs']]
+
+
+def run_list_case(case, schedule):
+    from props import c18
+    lists, bodies = list_bodies(case)
+    s = c18.Scheduler(bodies, timeout=30.0)
+    c18.CUR[0] = s
+    try:
+        results = s.run(schedule)
+    finally:
+        c18.CUR[0] = None
+    if s.hung:
+        raise c18.HarnessProblem('list programs did not finish: %r' % (case,))
+    real = [list(r[1]) if r and r[0] == 'ret' else ['RAISED'] + list(r[1:]) for r in results]
+    return lists, s, real
+
+
+def compare_lists(env, case, recs):
+    """recs: [(trace, real results, real lists afterwards)] -> failure dict or None"""
+    import json
+    solo = None
+    init = [[list(r) for r in l] for l in case['shared']]
+    drv = env['driver']
+    reps = [None] * len(recs)
+    if drv is not None:
+        reps = drv.ask({'p': 'C18', 'lists': [dict(mode='copy', shared=case['shared'], threads=case['progs'], sched=list(tr))
+                                              for tr, _, _ in recs]})['lists']
+    for (trace, real, after), rep in zip(recs, reps):
+        rcase = dict(kind='lists', case=case, schedule=list(trace))
+        real = json.loads(json.dumps(real))
+        # the property's own oracle on the real code: results == alone, shared lists unchanged
+        if solo is None:
+            solo = []
+            for i in range(len(case['progs'])):
+                _, _, r1 = run_list_case(dict(shared=case['shared'], progs=[case['progs'][i]]), [])
+                solo.append(json.loads(json.dumps(r1[0])))
+        for i in range(len(real)):
+            if real[i] != solo[i]:
+                return dict(kind='oracle', key='interference',
+                            what='programs %r over the shared host lists %r: thread %d under schedule %r returned %r; alone it '
+                                 'returns %r' % (case['progs'], init, i, list(trace), real[i], solo[i]), case=rcase)
+        if after != init:
+            return dict(kind='oracle', key='shared-context-changed',
+                        what='programs %r under schedule %r: the shared host lists were %r, are now %r' % (
+                            case['progs'], list(trace), init, after), case=rcase)
+        if rep is None:
+            continue
+        if rep['res'] != real or rep['wasted'] != 0 or rep['den'] != real or rep['shared'] != after:
+            return dict(kind='mismatch', key='model-vs-code',
+                        what='SharedList model and real order_by disagree under schedule %r: model %r (den %r, wasted steps %d, '
+                             'shared %r), real %r (shared %r), programs %r' % (
+                                 list(trace), rep['res'], rep['den'], rep['wasted'], rep['shared'], real, after, case['progs']),
+                        case=rcase)
+    return None
+
+
+def part_c2(env, res, rng, hist, deadline):
+    import sched
+    from props import c18
+    tier = env['tier']
+    st = dict(cases=0, schedules=0, ops={}, threads={}, list_lengths={})
+    n0 = len(res.failures)
+    for ci in range(300 if tier == 'quick' else 5000):
+        if len(res.failures) > n0 or time.time() > deadline:
+            break
+        case = gen_list_case(rng, ['tiny', 'mid', 'tiny', 'mid'][ci % 4])
+        counts = []
+        for p in case['progs']:
+            _, s1, _ = run_list_case(dict(shared=case['shared'], progs=[p]), [])
+            counts.append(s1.steps[0])
+        st['cases'] += 1
+        st['threads'][str(len(counts))] = st['threads'].get(str(len(counts)), 0) + 1
+        for p in case['progs']:
+            for op in p:
+                st['ops'][op[0]] = st['ops'].get(op[0], 0) + 1
+        for l in case['shared']:
+            st['list_lengths'][str(len(l))] = st['list_lengths'].get(str(len(l)), 0) + 1
+        if sum(counts) <= (10 if tier == 'quick' else 12) and len(counts) == 2:
+            scheds = list(sched.interleavings(counts))
+            if len(scheds) > 60:
+                rng.shuffle(scheds)
+                scheds = scheds[:60]
+        else:
+            scheds = c18.preemption_schedules(counts, 3, 12 if tier == 'quick' else 50, rng)
+        for _ in range(2):
+            sc = [i for i, c in enumerate(counts) for _ in range(c)]
+            rng.shuffle(sc)
+            scheds.append(sc)
+        recs = []
+        for sc in scheds:
+            lists, s, real = run_list_case(case, sc)
+            st['schedules'] += 1
+            res.traces += 1
+            sw = sum(1 for a, b in zip(s.trace, s.trace[1:]) if a != b)
+            res.case(('lists', common.digest(case), tuple(s.trace)), nontrivial=sw >= 2,
+                     sample=dict(kind='lists', case=case, schedule=s.trace) if st['cases'] == 2 and not recs else None)
+            recs.append((list(s.trace), real, [[list(r) for r in l] for l in lists]))
+        f = compare_lists(env, case, recs)
+        if f is not None:
+            res.fail(f['kind'], f['key'], f['what'], f['case'])
+    hist['C2_shared_list_model'] = st
